@@ -12,7 +12,7 @@ PROPERTY = 'C04'
 LEVEL = 'exploration'
 RULE = ('grid: allowance s in {0,1,60,300,86400} x judged bound in {Conditions.NotBefore, Conditions.NotOnOrAfter, SCD.NotOnOrAfter, SCD.NotBefore, '
         'SessionNotOnOrAfter, IssueInstant(+/-), NotBefore>NotOnOrAfter on Conditions / SCD} x placement of the bound at the reject edge and the accept edge '
-        '-3,-2,-1,0,+1,+2,+3 s and far values x presence subsets of the other bounds x 5 timestamp spellings (Z, no zone, fractional with/without Z); two AuthnStatements with the judged SessionNotOnOrAfter on either; '
+        '-3,-2,-1,0,+1,+2,+3 s and far values x presence subsets of the other bounds x 5 timestamp spellings (Z, no zone, fractional with/without Z); two AuthnStatements with the judged SessionNotOnOrAfter on either; two bearer confirmations with the judged NotOnOrAfter on either; the attribute-query answer entry point (parse_attribute_query_response, SOAP) for the Conditions and confirmation bounds; '
         '7 zone-offset spellings (+02:00 .. +14:00, -05:00, -11:00, +00:00) of bounds really passed / not reached by 5 s .. 15 h (reject side only); '
         'generated: every bound present/absent with its own offset. Instants within 1 s of an edge are run but not judged. '
         'Non-trivial = a bound within s+3 of an edge or an ordering violation; distinct = distinct row.')
@@ -50,9 +50,13 @@ def judge(case):
     b = dict(case['bounds'])          # kind -> epoch or None
     if not case.get('stmts'):
         b['sess2'] = None       # there is no second AuthnStatement to carry it
+    if not case.get('scd2'):
+        b['snooa2'] = None      # nor a second bearer confirmation
+    if case.get('entry') == 'attrq':
+        b['sess'] = b['sess2'] = None       # an attribute response carries no AuthnStatement
     must_reject = []
     comfortable = True
-    for k in ('cnooa', 'snooa', 'sess', 'sess2'):
+    for k in ('cnooa', 'snooa', 'snooa2', 'sess', 'sess2'):
         if b.get(k) is not None:
             if now - s > b[k] + 1:
                 must_reject.append(k + ' passed')
@@ -75,7 +79,8 @@ def judge(case):
         comfortable = False
     if must_reject:
         return 'reject', must_reject
-    profile = b.get('snooa') is not None and b.get('snb') is None and not case.get('stmts') and case.get('spell', 0) < 100
+    profile = (b.get('snooa') is not None and b.get('snb') is None and not case.get('stmts') and case.get('spell', 0) < 100 and not case.get('scd2')
+               and case.get('entry', 'authn') == 'authn')
     if comfortable and profile:
         return 'accept', []
     return 'unjudged', []
@@ -84,9 +89,17 @@ def judge(case):
 def run(case):
     now = spside.NOW
     s = case['s']
-    sp = spside.sp_for({'accepted_time_diff': s} if s else {})
+    attrq = case.get('entry') == 'attrq'
+    opts = {'accepted_time_diff': s} if s else {}
+    if attrq:
+        opts.update({'want_response_signed': False, 'want_assertions_signed': False, 'want_assertions_or_response_signed': False})
+    sp = spside.sp_for(opts)
     clock.set_now(now)
     b = dict(case['bounds'])
+    if not case.get('scd2'):
+        b['snooa2'] = None
+    if attrq:
+        b['sess'] = b['sess2'] = None
     if not case.get('stmts'):
         b['sess2'] = None
     spell = case.get('spell', 0)
@@ -105,6 +118,13 @@ def run(case):
     if b.get('snb') is not None:
         data['not_before'] = stamp(b['snb'], spell)
     a['subject']['confirmations'] = [{'method': build.BEARER, 'data': data}]
+    # a second bearer confirmation with a window of its own: 'scd2' = 1 after the first, 2 before it
+    if case.get('scd2'):
+        d2 = {'in_response_to': 'id-req-1', 'recipient': spside.ACS_POST}
+        if b.get('snooa2') is not None:
+            d2['not_on_or_after'] = stamp(b['snooa2'], spell)
+        c2 = {'method': build.BEARER, 'data': d2}
+        a['subject']['confirmations'] = a['subject']['confirmations'] + [c2] if case['scd2'] == 1 else [c2] + a['subject']['confirmations']
     st = {'authn_instant': stamp(now - 5, 0), 'session_index': 's1', 'class_ref': build.PASSWORD}
     if b.get('sess') is not None:
         st['session_not_on_or_after'] = stamp(b['sess'], spell)
@@ -115,8 +135,14 @@ def run(case):
         if b.get('sess2') is not None:
             st2['session_not_on_or_after'] = stamp(b['sess2'], spell)
         a['authn'] = [st, st2] if case['stmts'] == 1 else [st2, st]
-    doc = build.render(r, [a], sign_response=1)
-    v = spside.deliver(sp, doc)
+    if attrq:
+        # the SP's other response entry point: the answer to an attribute query (SOAP, unsigned; no AuthnStatement, no Destination)
+        a['authn'] = []
+        r['destination'] = None
+        v = spside.deliver_attr(sp, build.render(r, [a]))
+    else:
+        doc = build.render(r, [a], sign_response=1)
+        v = spside.deliver(sp, doc)
     want, why = judge(case)
     label = want + '|' + case.get('judged', 'multi')
     if want == 'reject' and v[0] == 'accept':
@@ -126,9 +152,9 @@ def run(case):
         if v[0] != 'accept':
             raise Violation('rejected-inside-window', 'allowance %d: every bound satisfied with more than the allowance to spare, rejected: %s %s (bounds relative to now: %r, IssueInstant %+d, spelling %r)'
                             % (s, v[1], v[2], dict((k, x - now) for k, x in b.items() if x is not None), case['ii'] - now, SPELL[spell % len(SPELL)]))
-    if v[0] == 'accept':
+    if v[0] == 'accept' and not attrq:
         got = v[1].session_info()['not_on_or_after']
-        if case.get('stmts'):
+        if case.get('stmts') or attrq:
             exp = None      # which statement's bound is the session expiry is not stated for several statements
         elif b.get('sess') is not None:
             exp = b['sess']
@@ -167,6 +193,20 @@ def grid():
                 for p in [now - s + k for k in ks] + [now - s - FAR, now - 10 * DAY, now + s + FAR]:
                     out.append({'s': s, 'judged': 'sess2', 'subset': 'all', 'bounds': dict(comfy, sess=other, sess2=p), 'ii': now, 'spell': len(out) % len(SPELL), 'stmts': stmts,
                                 'near': abs(p - now) <= s + 3})
+        # a second bearer confirmation whose NotOnOrAfter is the judged bound, the first one comfortable (and the other way round by position)
+        for pos in (1, 2):
+            for p in [now - s + k for k in ks] + [now - s - FAR, now - 10 * DAY, now + s + FAR]:
+                out.append({'s': s, 'judged': 'snooa2', 'subset': 'all', 'bounds': dict(comfy, snooa2=p), 'ii': now, 'spell': len(out) % len(SPELL), 'scd2': pos, 'near': abs(p - now) <= s + 3})
+        # the attribute-query answer entry point: Conditions and confirmation bounds
+        for judged in ('cnb', 'cnooa', 'snooa'):
+            if judged == 'cnb':
+                places = [now + s + k for k in ks] + [now + s + FAR, now - s - FAR]
+            else:
+                places = [now - s + k for k in ks] + [now - s - FAR, now + s + FAR]
+            for p in places:
+                out.append({'s': s, 'judged': 'attrq-' + judged, 'subset': 'all', 'bounds': dict(comfy, **{judged: p}), 'ii': now, 'spell': len(out) % len(SPELL), 'entry': 'attrq', 'near': abs(p - now) <= s + 3})
+        for d in (1, s + 5):
+            out.append({'s': s, 'judged': 'attrq-order', 'subset': 'all', 'bounds': dict(comfy, cnb=now + FAR + d, cnooa=now + FAR), 'ii': now, 'spell': 0, 'entry': 'attrq', 'near': True})
         # zone-offset spellings of a bound that has really passed / is really not yet reached, by less and by more than the offset
         for z in range(len(ZONED)):
             for judged in BOUNDS:
@@ -200,8 +240,8 @@ def generated_strategy():
     def build_case(s):
         opt = lambda: st.one_of(st.none(), offsets(s).map(lambda o: now + o))
         return st.fixed_dictionaries({'s': st.just(s), 'judged': st.just('multi'),
-                                      'bounds': st.fixed_dictionaries({'cnb': opt(), 'cnooa': opt(), 'snooa': st.one_of(opt(), offsets(s).map(lambda o: now + o)), 'snb': st.one_of(st.none(), st.none(), opt()), 'sess': opt(), 'sess2': opt()}),
-                                      'stmts': st.sampled_from([0, 0, 0, 1, 2]),
+                                      'bounds': st.fixed_dictionaries({'cnb': opt(), 'cnooa': opt(), 'snooa': st.one_of(opt(), offsets(s).map(lambda o: now + o)), 'snb': st.one_of(st.none(), st.none(), opt()), 'sess': opt(), 'sess2': opt(), 'snooa2': opt()}),
+                                      'stmts': st.sampled_from([0, 0, 0, 1, 2]), 'scd2': st.sampled_from([0, 0, 0, 1, 2]), 'entry': st.sampled_from(['authn', 'authn', 'authn', 'attrq']),
                                       'ii': st.one_of(st.just(now), st.sampled_from([-1, 1]).flatmap(lambda sg: st.integers(-5, 5).map(lambda k: now + sg * (DAY + s + k)))),
                                       'spell': st.one_of(st.integers(0, len(SPELL) - 1), st.integers(0, len(SPELL) - 1), st.integers(100, 100 + len(ZONED) - 1)), 'near': st.just(True)})
     return st.sampled_from(ALLOWANCES).flatmap(build_case)
